@@ -850,3 +850,15 @@ func closureOf(v ssa.Value) *ssa.Function {
 	}
 	return nil
 }
+
+// constOf returns the int64 value of a types.Const object (or -1).
+func constOf(o types.Object) int64 {
+	c, ok := o.(*types.Const)
+	if !ok {
+		return -1
+	}
+	if v, ok := constant.Int64Val(constant.ToInt(c.Val())); ok {
+		return v
+	}
+	return -1
+}
